@@ -21,6 +21,9 @@
   `Σ a_i = 1`); the factors are `WF` in the sense of C09 (zero base-rate entries allowed: the model
   filters the cells with joint base rate `> 0` before the `min` reduction, `C06_cells_iff`, so such a
   cell contributes no candidate).
+  Since repair abca806 the code evaluates the candidate `(P2 k - B2 k) / A2 k` of a cell in the expanded form
+  `u0 (b1 j / a1 j + u1) + b0 i / a0 i * u1` (no cancellation); section 9 relates the two forms.  No statement of
+  sections 1-8 changed.
 -/
 import SLV.Refine.C06Lemmas
 import SLV.Props.C01
@@ -641,5 +644,147 @@ theorem C06_one_vacuous_not_vacuous :
   · have := (C06_vacuous_left wfVac wfAbs rfl).1 1 (by simp)
     simpa using this
   · exact (C06_wf wfVac wfAbs).2.2.1
+
+/-! ## 9. the candidates as the code evaluates them since repair abca806
+
+  The code no longer forms `(P - B)/A` (a difference of two rounded products of order `P`, divided by a joint
+  base rate that may be tiny) but, with `r = b / a` per factor at the cell's coordinates,
+  `u0 (r1 + u1) + r0 u1` resp. `u0 (r1 + u1)(r2 + u2) + r0 (u1 (r2 + u2) + r1 u2)` (`prodCand2`, `prodCand3` in
+  SLV/Model/Prod.lean).  On a cell with non-zero joint base rate this is the same rational number
+  (`C06_candidate`, `C06_candidate3`: the lifting lemmas behind `C06_refines`, `C06_refines3`, whose statements
+  did not change).  What distinguishes the two forms at the exact level: the expanded candidate is a sum of
+  products of non-negative numbers, so the uncertainty of the raw product is `≥ 0` for ALL non-negative operands
+  (`C06_uncertainty_nonneg_gen`, `…_gen3`), whereas the old form, which used the NORMALISED projections, is
+  negative for operands that are well-formed only within the constructors' tolerance
+  (`C06_pinned_product_negative_exact` in SLV/Props/Pinned.lean). -/
+
+/-- the model's candidate at cell `k = (i, j)`, on lifted rational operands of any kind, when the joint base rate
+    of the cell is not zero: the expanded form, and the quotient `(P0 i * P1 j - b0 i * b1 j) / (a0 i * a1 j)` of the
+    un-normalised projections `P = b + a u` -/
+theorem C06_candidate (b0 a0 : Fin n0 → ℚ) (u0 : ℚ) (b1 a1 : Fin n1 → ℚ) (u1 : ℚ) (k : Fin (n0 * n1))
+    (hk : a0 (idx2 k).1 * a1 (idx2 k).2 ≠ 0) :
+    prodCand2 (⟨liftT b0, XQ.fin u0, liftT a0⟩ : Opinion (XQ f) n0) ⟨liftT b1, XQ.fin u1, liftT a1⟩ (idx2 k)
+      = XQ.fin (u0 * (b1 (idx2 k).2 / a1 (idx2 k).2 + u1) + b0 (idx2 k).1 / a0 (idx2 k).1 * u1) ∧
+    u0 * (b1 (idx2 k).2 / a1 (idx2 k).2 + u1) + b0 (idx2 k).1 / a0 (idx2 k).1 * u1
+      = ((b0 (idx2 k).1 + a0 (idx2 k).1 * u0) * (b1 (idx2 k).2 + a1 (idx2 k).2 * u1)
+          - b0 (idx2 k).1 * b1 (idx2 k).2) / (a0 (idx2 k).1 * a1 (idx2 k).2) := by
+  refine ⟨prodCand2_fin b0 u0 a0 b1 u1 a1 k hk, ?_⟩
+  have h := prodCand2_fin (f := f) b0 u0 a0 b1 u1 a1 k hk
+  rw [prodCand2_lift b0 u0 a0 b1 u1 a1 k hk] at h
+  exact (XQ.fin.inj h).symm
+
+theorem C06_candidate3 (b0 a0 : Fin n0 → ℚ) (u0 : ℚ) (b1 a1 : Fin n1 → ℚ) (u1 : ℚ)
+    (b2 a2 : Fin n2 → ℚ) (u2 : ℚ) (k : Fin (n0 * n1 * n2))
+    (hk : a0 (idx3 k).1 * a1 (idx3 k).2.1 * a2 (idx3 k).2.2 ≠ 0) :
+    prodCand3 (⟨liftT b0, XQ.fin u0, liftT a0⟩ : Opinion (XQ f) n0) ⟨liftT b1, XQ.fin u1, liftT a1⟩
+        ⟨liftT b2, XQ.fin u2, liftT a2⟩ (idx3 k)
+      = XQ.fin (cand3 b0 u0 a0 b1 u1 a1 b2 u2 a2 k) ∧
+    cand3 b0 u0 a0 b1 u1 a1 b2 u2 a2 k
+      = ((b0 (idx3 k).1 + a0 (idx3 k).1 * u0) * (b1 (idx3 k).2.1 + a1 (idx3 k).2.1 * u1)
+            * (b2 (idx3 k).2.2 + a2 (idx3 k).2.2 * u2)
+          - b0 (idx3 k).1 * b1 (idx3 k).2.1 * b2 (idx3 k).2.2)
+        / (a0 (idx3 k).1 * a1 (idx3 k).2.1 * a2 (idx3 k).2.2) := by
+  refine ⟨prodCand3_fin b0 u0 a0 b1 u1 a1 b2 u2 a2 k hk, ?_⟩
+  have h := prodCand3_fin (f := f) b0 u0 a0 b1 u1 a1 b2 u2 a2 k hk
+  rw [prodCand3_lift b0 u0 a0 b1 u1 a1 b2 u2 a2 k hk] at h
+  exact (XQ.fin.inj h).symm
+
+/-- the uncertainty of the raw product is finite and `≥ 0` for ALL operands with non-negative entries, whatever
+    their sums (in particular for operands that are well-formed only within the constructors' tolerance), as soon
+    as one cell has a positive joint base rate (otherwise the Rust code panics on the empty `reduce`): it is the
+    least expanded candidate over the cells with positive joint base rate, each a sum of products of non-negative
+    numbers.  The form `(P - B)/A` of the code before repair abca806 does not have this property
+    (`C06_pinned_product_negative_exact`). -/
+theorem C06_uncertainty_nonneg_gen (b0 a0 : Fin n0 → ℚ) (u0 : ℚ) (b1 a1 : Fin n1 → ℚ) (u1 : ℚ)
+    (hb0 : ∀ i, 0 ≤ b0 i) (hu0 : 0 ≤ u0) (ha0 : ∀ i, 0 ≤ a0 i)
+    (hb1 : ∀ j, 0 ≤ b1 j) (hu1 : 0 ≤ u1) (ha1 : ∀ j, 0 ≤ a1 j)
+    (hne : ∃ i j, 0 < a0 i * a1 j) :
+    ∃ q : ℚ,
+      (product2Raw (⟨liftT b0, XQ.fin u0, liftT a0⟩ : Opinion (XQ f) n0)
+          ⟨liftT b1, XQ.fin u1, liftT a1⟩).u = XQ.fin q ∧
+      0 ≤ q ∧
+      (∀ i j, 0 < a0 i * a1 j → q ≤ u0 * (b1 j / a1 j + u1) + b0 i / a0 i * u1) ∧
+      ∃ i j, 0 < a0 i * a1 j ∧ q = u0 * (b1 j / a1 j + u1) + b0 i / a0 i * u1 := by
+  obtain ⟨m, e, hle, k1, hk1, hat⟩ := rawOf_u_gen (f := f)
+    (outer2 (SLV.projection (liftT b0) (XQ.fin u0) (liftT a0))
+      (SLV.projection (liftT b1) (XQ.fin u1) (liftT a1)))
+    (A2 a0 a1)
+    (fun k => prodCand2 (⟨liftT b0, XQ.fin u0, liftT a0⟩ : Opinion (XQ f) n0)
+      ⟨liftT b1, XQ.fin u1, liftT a1⟩ (idx2 k))
+    (cand2 b0 u0 a0 b1 u1 a1)
+    (fun k hk => prodCand2_fin b0 u0 a0 b1 u1 a1 k (ne_of_gt hk))
+    (by obtain ⟨i, j, h⟩ := hne; exact ⟨flat2 i j, by unfold A2; rw [idx2_flat2]; exact h⟩)
+  have hA : (liftT (A2 a0 a1) : Tab (XQ f) (n0 * n1)) = outer2 (liftT a0) (liftT a1) := (outer2_lift a0 a1).symm
+  rw [hA] at e
+  refine ⟨m, e, ?_, ?_, ?_⟩
+  · rw [hat]; exact cand2_nonneg b0 u0 a0 b1 u1 a1 hb0 hu0 ha0 hb1 hu1 ha1 k1
+  · intro i j hij
+    have := hle (flat2 i j) (by unfold A2; rw [idx2_flat2]; exact hij)
+    unfold cand2 at this
+    rw [idx2_flat2] at this
+    exact this
+  · exact ⟨(idx2 k1).1, (idx2 k1).2, hk1, hat⟩
+
+/-- three factors -/
+theorem C06_uncertainty_nonneg_gen3 (b0 a0 : Fin n0 → ℚ) (u0 : ℚ) (b1 a1 : Fin n1 → ℚ) (u1 : ℚ)
+    (b2 a2 : Fin n2 → ℚ) (u2 : ℚ)
+    (hb0 : ∀ i, 0 ≤ b0 i) (hu0 : 0 ≤ u0) (ha0 : ∀ i, 0 ≤ a0 i)
+    (hb1 : ∀ j, 0 ≤ b1 j) (hu1 : 0 ≤ u1) (ha1 : ∀ j, 0 ≤ a1 j)
+    (hb2 : ∀ l, 0 ≤ b2 l) (hu2 : 0 ≤ u2) (ha2 : ∀ l, 0 ≤ a2 l)
+    (hne : ∃ i j l, 0 < a0 i * a1 j * a2 l) :
+    ∃ q : ℚ,
+      (product3Raw (⟨liftT b0, XQ.fin u0, liftT a0⟩ : Opinion (XQ f) n0)
+          ⟨liftT b1, XQ.fin u1, liftT a1⟩ ⟨liftT b2, XQ.fin u2, liftT a2⟩).u = XQ.fin q ∧
+      0 ≤ q ∧
+      (∀ i j l, 0 < a0 i * a1 j * a2 l →
+        q ≤ u0 * (b1 j / a1 j + u1) * (b2 l / a2 l + u2)
+              + b0 i / a0 i * (u1 * (b2 l / a2 l + u2) + b1 j / a1 j * u2)) ∧
+      ∃ i j l, 0 < a0 i * a1 j * a2 l ∧
+        q = u0 * (b1 j / a1 j + u1) * (b2 l / a2 l + u2)
+              + b0 i / a0 i * (u1 * (b2 l / a2 l + u2) + b1 j / a1 j * u2) := by
+  obtain ⟨m, e, hle, k1, hk1, hat⟩ := rawOf_u_gen (f := f)
+    (outer3 (SLV.projection (liftT b0) (XQ.fin u0) (liftT a0))
+      (SLV.projection (liftT b1) (XQ.fin u1) (liftT a1))
+      (SLV.projection (liftT b2) (XQ.fin u2) (liftT a2)))
+    (A3 a0 a1 a2)
+    (fun k => prodCand3 (⟨liftT b0, XQ.fin u0, liftT a0⟩ : Opinion (XQ f) n0)
+      ⟨liftT b1, XQ.fin u1, liftT a1⟩ ⟨liftT b2, XQ.fin u2, liftT a2⟩ (idx3 k))
+    (cand3 b0 u0 a0 b1 u1 a1 b2 u2 a2)
+    (fun k hk => prodCand3_fin b0 u0 a0 b1 u1 a1 b2 u2 a2 k (ne_of_gt hk))
+    (by obtain ⟨i, j, l, h⟩ := hne; exact ⟨flat3 i j l, by unfold A3; rw [idx3_flat3]; exact h⟩)
+  have hA : (liftT (A3 a0 a1 a2) : Tab (XQ f) (n0 * n1 * n2)) = outer3 (liftT a0) (liftT a1) (liftT a2) :=
+    (outer3_lift a0 a1 a2).symm
+  rw [hA] at e
+  refine ⟨m, e, ?_, ?_, ?_⟩
+  · rw [hat]
+    exact cand3_nonneg b0 u0 a0 b1 u1 a1 b2 u2 a2 hb0 hu0 ha0 hb1 hu1 ha1 hb2 hu2 ha2 k1
+  · intro i j l hijl
+    have := hle (flat3 i j l) (by unfold A3; rw [idx3_flat3]; exact hijl)
+    unfold cand3 at this
+    rw [idx3_flat3] at this
+    exact this
+  · exact ⟨(idx3 k1).1, (idx3 k1).2.1, (idx3 k1).2.2, hk1, hat⟩
+
+/-- non-vacuity of `C06_uncertainty_nonneg_gen` beyond `C06_wf`: a dogmatic second factor whose masses sum to
+    `1 + ε/2` (accepted by the checked constructor, not `WF`) satisfies the hypotheses; the uncertainty of the
+    product is `0` (the form `(P - B)/A` of the normalised projections gave `-(1+ε)ε/(2+ε) < 0` here:
+    `C06_pinned_product_negative_exact`) -/
+example :
+    (∀ j, 0 ≤ (![1/2, 1/2 + f.eps / 2] : Fin 2 → ℚ) j) ∧ ¬ WF ![1/2, 1/2 + f.eps / 2] 0 ![1/2, 1/2] ∧
+    (∃ i j, 0 < (![1/2, 1/2] : Fin 2 → ℚ) i * (![1/2, 1/2] : Fin 2 → ℚ) j) ∧
+    (product2Raw (⟨liftT ![1/2, 1/2], XQ.fin 0, liftT ![1/2, 1/2]⟩ : Opinion (XQ f) 2)
+        ⟨liftT ![1/2, 1/2 + f.eps / 2], XQ.fin 0, liftT ![1/2, 1/2]⟩).u = XQ.fin 0 := by
+  have he := XQ.eps_pos f
+  refine ⟨?_, ?_, ⟨0, 0, by norm_num⟩, ?_⟩
+  · simp [Fin.forall_fin_two]; positivity
+  · intro h
+    have := h.hs
+    simp [Fin.sum_univ_two] at this
+    linarith
+  · obtain ⟨q, e, h0, _, i, j, _, hq⟩ := C06_uncertainty_nonneg_gen (f := f) ![1/2, 1/2] ![1/2, 1/2] 0
+      ![1/2, 1/2 + f.eps / 2] ![1/2, 1/2] 0 (by simp [Fin.forall_fin_two]) le_rfl
+      (by simp [Fin.forall_fin_two]) (by simp [Fin.forall_fin_two]; positivity) le_rfl
+      (by simp [Fin.forall_fin_two]) ⟨0, 0, by norm_num⟩
+    rw [e, hq]; simp
 
 end SLV.Props.C06
